@@ -398,6 +398,11 @@ impl TypeContext {
                     continue;
                 }
 
+                if let Some(param_self) = &method.param_self {
+                    let self_ty: hir::Type = param_self.ty.clone().into();
+                    self.validate_ty_in_method(errors, Param::Input("self"), &self_ty, method);
+                }
+
                 for param in &method.params {
                     self.validate_ty_in_method(
                         errors,
